@@ -21,7 +21,7 @@ def run(ctx):
     if r.violated:
         ctx.violation("C14/spec-W9", f"specification violates {r.violated}", {"tlc": r.trace})
     sim = 2500 if thorough else 500
-    suite = [("W9", 4, None, None), ("W9", 6, sim, None), ("W9b", 4, None, 6000), ("W9n", 5, None, None), ("W9b", 6, sim, None), ("W3", 6, sim, None), ("W5", 6, sim, None),
+    suite = [("W9", 4, None, None), ("W9", 6, sim, None), ("W9b", 4, None, 6000), ("W9n", 5, None, None), ("W9o", 4, None, None), ("W9b", 6, sim, None), ("W3", 6, sim, None), ("W5", 6, sim, None),
              ("W7c", 6, sim, None), ("W7d", 6, sim, None)]
     if thorough:
         suite += [("W9", 5, None, 40000)]
